@@ -1,2 +1,278 @@
-(* Model/Bed.v — executable model; no proofs here. *)
+(* Model/Bed.v — executable model of /repo/formats/bed (bed.go, iter.go);
+   no proofs here.
+
+   The record has the twelve BED fields and N, the number of populated fields.
+   [write_calls] lists the chunks BED.Write hands to the io.Writer, one per
+   Fprintf call.  [parse_line] is parseLine.  [decode] is Reader (iter.go) over
+   reader.read (bufio.Reader.ReadString + strings.Split on TAB; the reader was
+   rewritten by the fix for defect D3 and no longer uses encoding/csv). *)
 From Bio Require Import Base.
+
+Record bed : Type := mkBed {
+  b_n : Z;                       (* N *)
+  b_chrom : bytes;
+  b_start : Z;                   (* ChromStart *)
+  b_end : Z;                     (* ChromEnd *)
+  b_name : bytes;
+  b_score : Z;
+  b_strand : bytes;
+  b_thick_start : Z;
+  b_thick_end : Z;
+  b_rgb : N * N * N;             (* ItemRGB [3]byte *)
+  b_block_count : Z;
+  b_block_sizes : list Z;
+  b_block_starts : list Z
+}.
+
+Definition COMMA : byte := 44.
+
+(* ------------------------------------------------------------------ *)
+(* BED.Write (bed.go:49-125)                                            *)
+
+(* fmt's %v of a byte: decimal *)
+Definition fmt_byte (n : N) : bytes := itoa (Z.of_N n).
+
+Definition rgb_text (c : N * N * N) : bytes :=
+  let '(r, g, b) := c in fmt_byte r ++ COMMA :: fmt_byte g ++ COMMA :: fmt_byte b.
+
+(* the loop over a block list: "%v" for element 0, ",%v" for the others,
+   one Fprintf each *)
+Fixpoint list_calls_rest (l : list Z) : list bytes :=
+  match l with
+  | [] => []
+  | x :: r => (COMMA :: itoa x) :: list_calls_rest r
+  end.
+
+Definition list_calls (l : list Z) : list bytes :=
+  match l with
+  | [] => []
+  | x :: r => itoa x :: list_calls_rest r
+  end.
+
+Definition when (c : bool) (l : list bytes) : list bytes := if c then l else [].
+
+Definition write_calls (b : bed) : outcome (list bytes) :=
+  let n := b_n b in
+  if ((n <? 3) || (n >? 12))%Z then Err            (* nothing emitted *)
+  else Ok (
+    [b_chrom b ++ TAB :: itoa (b_start b) ++ TAB :: itoa (b_end b)]
+    ++ when (n >? 3)%Z [TAB :: b_name b]
+    ++ when (n >? 4)%Z [TAB :: itoa (b_score b)]
+    ++ when (n >? 5)%Z [TAB :: b_strand b]
+    ++ when (n >? 6)%Z [TAB :: itoa (b_thick_start b)]
+    ++ when (n >? 7)%Z [TAB :: itoa (b_thick_end b)]
+    ++ when (n >? 8)%Z [TAB :: rgb_text (b_rgb b)]
+    ++ when (n >? 9)%Z [TAB :: itoa (b_block_count b)]
+    ++ when (n >? 10)%Z ([TAB] :: list_calls (b_block_sizes b))
+    ++ when (n >? 11)%Z ([TAB] :: list_calls (b_block_starts b))
+    ++ [[LF]]).
+
+(* the bytes that reach an infallible writer; also MarshalText (bed.go:130) *)
+Definition write (b : bed) : outcome bytes :=
+  match write_calls b with
+  | Ok cs => Ok (concat cs)
+  | Err => Err
+  | Panic => Panic
+  end.
+
+(* a file: the records written one after the other; stops at the first refusal *)
+Fixpoint write_file (l : list bed) : outcome bytes :=
+  match l with
+  | [] => Ok []
+  | b :: r =>
+    match write b with
+    | Ok x => match write_file r with Ok y => Ok (x ++ y) | e => e end
+    | Err => Err
+    | Panic => Panic
+    end
+  end.
+
+(* ------------------------------------------------------------------ *)
+(* strconv.ParseUint(s, 0, 8)  (go/src/strconv/atoi.go)                 *)
+
+Definition lower (c : N) : N := N.lor c 32.           (* c | ('x' - 'X') *)
+
+Definition is_dec (c : N) : bool := (48 <=? c) && (c <=? 57).
+
+Definition digit_val (c : N) : option N :=
+  if is_dec c then Some (c - 48)
+  else let l := lower c in
+       if (97 <=? l) && (l <=? 122) then Some (l - 97 + 10) else None.
+
+(* The digit loop.  [us]: an underscore was seen (underscores are skipped
+   because base 0 was requested).  The uint64 cutoff test of the Go loop can
+   never fire here: n stays <= maxv = 255. *)
+Fixpoint pu_loop (base maxv : N) (s : bytes) (n : N) (us : bool) : option (N * bool) :=
+  match s with
+  | [] => Some (n, us)
+  | c :: r =>
+    if c =? 95 then pu_loop base maxv r n true
+    else match digit_val c with
+         | None => None                              (* syntax error *)
+         | Some d =>
+           if base <=? d then None                   (* syntax error *)
+           else let n1 := n * base + d in
+                if maxv <? n1 then None              (* range error *)
+                else pu_loop base maxv r n1 us
+         end
+  end.
+
+Inductive saw : Type := SawStart | SawDigit | SawUnderscore | SawOther.
+
+Fixpoint us_loop (hex : bool) (s : bytes) (sw : saw) : bool :=
+  match s with
+  | [] => match sw with SawUnderscore => false | _ => true end
+  | c :: r =>
+    if is_dec c || (hex && (97 <=? lower c) && (lower c <=? 102)) then us_loop hex r SawDigit
+    else if c =? 95 then
+      match sw with SawDigit => us_loop hex r SawUnderscore | _ => false end
+    else match sw with SawUnderscore => false | _ => us_loop hex r SawOther end
+  end.
+
+Definition is_prefix_letter (c : N) : bool :=
+  (lower c =? 98) || (lower c =? 111) || (lower c =? 120).     (* b o x *)
+
+(* strconv.underscoreOK *)
+Definition underscore_ok (s0 : bytes) : bool :=
+  let s := match s0 with
+           | c :: r => if (c =? 45) || (c =? 43) then r else s0
+           | [] => s0
+           end in
+  match s with
+  | c0 :: c1 :: r =>
+    if (c0 =? 48) && is_prefix_letter c1 then us_loop (lower c1 =? 120) r SawDigit
+    else us_loop false s SawStart
+  | _ => us_loop false s SawStart
+  end.
+
+Definition parse_uint8 (s : bytes) : option N :=
+  match s with
+  | [] => None
+  | c0 :: r0 =>
+    let '(base, body) :=
+      if c0 =? 48 then
+        match r0 with
+        | c1 :: ((_ :: _) as r1) =>                   (* len(s) >= 3 *)
+          if lower c1 =? 98 then (2, r1)
+          else if lower c1 =? 111 then (8, r1)
+          else if lower c1 =? 120 then (16, r1)
+          else (8, r0)
+        | _ => (8, r0)
+        end
+      else (10, s) in
+    match pu_loop base 255 body 0 false with
+    | None => None
+    | Some (n, us) => if us && negb (underscore_ok s) then None else Some n
+    end
+  end.
+
+(* ------------------------------------------------------------------ *)
+(* parseLine (bed.go:139-230)                                           *)
+
+(* `if f != "" { x, err = strconv.Atoi(f) }` on a zero-initialised field *)
+Definition opt_atoi (s : bytes) : option Z :=
+  match s with [] => Some 0%Z | _ => atoi s end.
+
+Definition strand_ok (s : bytes) : bool :=
+  beqb s [] || beqb s [43] || beqb s [45] || beqb s [46].      (* "" + - . *)
+
+Definition parse_rgb (s : bytes) : option (N * N * N) :=
+  match s with
+  | [] => Some (0, 0, 0)
+  | _ =>
+    match split_on COMMA s with
+    | [a; b; c] =>
+      match parse_uint8 a with None => None | Some x =>
+      match parse_uint8 b with None => None | Some y =>
+      match parse_uint8 c with None => None | Some z => Some (x, y, z)
+      end end end
+    | _ => None
+    end
+  end.
+
+Fixpoint atoi_all (l : list bytes) : option (list Z) :=
+  match l with
+  | [] => Some []
+  | x :: r =>
+    match atoi x with
+    | None => None
+    | Some z => match atoi_all r with None => None | Some zs => Some (z :: zs) end
+    end
+  end.
+
+Definition parse_ints (s : bytes) : option (list Z) :=
+  match s with [] => Some [] | _ => atoi_all (split_on COMMA s) end.
+
+(* the body of parseLine once the fields were padded to twelve *)
+Definition parse_fields (n : Z) (f : list bytes) : outcome bed :=
+  let fld i := nth i f [] in
+  match atoi (fld 1%nat) with None => Err | Some cs =>
+  match atoi (fld 2%nat) with None => Err | Some ce =>
+  match opt_atoi (fld 4%nat) with None => Err | Some sc =>
+  if negb (strand_ok (fld 5%nat)) then Err else
+  match opt_atoi (fld 6%nat) with None => Err | Some ts =>
+  match opt_atoi (fld 7%nat) with None => Err | Some te =>
+  match parse_rgb (fld 8%nat) with None => Err | Some rgb =>
+  match opt_atoi (fld 9%nat) with None => Err | Some bc =>
+  match parse_ints (fld 10%nat) with None => Err | Some sizes =>
+  match parse_ints (fld 11%nat) with None => Err | Some starts =>
+  if negb (Z.of_nat (length sizes) =? bc)%Z then Err else
+  if negb (Z.of_nat (length starts) =? bc)%Z then Err else
+  Ok {| b_n := n; b_chrom := fld 0%nat; b_start := cs; b_end := ce;
+        b_name := fld 3%nat; b_score := sc; b_strand := fld 5%nat;
+        b_thick_start := ts; b_thick_end := te; b_rgb := rgb;
+        b_block_count := bc; b_block_sizes := sizes; b_block_starts := starts |}
+  end end end end end end end end end.
+
+Definition parse_line (fields : list bytes) : outcome bed :=
+  let n := length fields in
+  if ((n <? 3) || (12 <? n))%nat then Err
+  else parse_fields (Z.of_nat n) (fields ++ repeat [] (12 - n)).
+
+(* ------------------------------------------------------------------ *)
+(* reader.read + Reader (bed.go:252-278, iter.go:11-28)                 *)
+
+Inductive step : Type :=
+| Skip                               (* empty line or comment: continue *)
+| StopErr                            (* an error is yielded, iteration ends *)
+| Yield (b : bed) (n : nat).         (* a record; n = reader.n afterwards *)
+
+(* one line (LF already removed) with reader.n = n (0: not yet set) *)
+Definition do_line (n : nat) (raw : bytes) : step :=
+  let text := drop_cr raw in                         (* TrimSuffix "\r" *)
+  match text with
+  | [] => Skip
+  | c :: _ =>
+    if c =? 35 then Skip                             (* '#' *)
+    else
+      let line := split_on TAB text in
+      let n' := if (n =? 0)%nat then length line else n in
+      if negb (length line =? n')%nat then StopErr
+      else match parse_line line with
+           | Ok b => Yield b n'
+           | _ => StopErr
+           end
+  end.
+
+Fixpoint dec_lines (n : nat) (ls : list bytes) (tail : bytes) (t : term) : list (item bed) :=
+  match ls with
+  | [] =>
+    match t with
+    | TErr => [ErrItem]            (* ReadString's error: the tail is dropped *)
+    | TEOF =>
+      match do_line n tail with
+      | Skip => []                 (* text == "" or comment at EOF -> io.EOF *)
+      | StopErr => [ErrItem]
+      | Yield b _ => [Rec b]       (* the next read sees "" and EOF *)
+      end
+    end
+  | l :: r =>
+    match do_line n l with
+    | Skip => dec_lines n r tail t
+    | StopErr => [ErrItem]
+    | Yield b n' => Rec b :: dec_lines n' r tail t
+    end
+  end.
+
+Definition decode (s : bytes) (t : term) : list (item bed) :=
+  let '(ls, tail) := rs_lines s in dec_lines 0 ls tail t.
